@@ -36,7 +36,8 @@ SPEC = dict(
                                            '_det-equals-product-of-pivots', '_lndet-equals-sum-log-pivots',
                                            '_lndet-agrees-with-log-abs-det', '_det-equals-quad-determinant-of-input')] +
             ['plu_sgndet-equals-sign-of-pivot-product', 'ldl_sgndet-equals-sign-of-pivot-product',
-             'plu_sgndet-agrees-with-det', 'ldl_sgndet-agrees-with-det', 'llt_det-positive'],
+             'plu_sgndet-agrees-with-det', 'ldl_sgndet-agrees-with-det', 'plu_sgndet-zero-pivot-gives-0',
+             'ldl_sgndet-zero-pivot-gives-0', 'llt_det-positive'],
     cov_files=['linalg_plu.c', 'linalg_ldl.c', 'linalg_llt.c'],
     cov_cases=600,
     cov_funcs=r'^a_real_(plu|ldl|llt)',
